@@ -4,39 +4,54 @@ One pool task per configuration (quick: one tiny configuration of each of the 23
 thorough: tiny + default-size).  Per configuration (mc/c02_core.py), all exhaustive over the listed sets:
 
 (1) cross-transformation.  The configuration is explored with mc.engine.Explorer from the key window
-    {0,1,2,3} (all actions; max 300 / 1 500 states); a monitor records its transitions.  T = up to 200 / 600
-    recorded transitions (evenly strided over the BFS-ordered record, <= 16 actions per parent) plus every
-    transition of the selected paths: root-to-leaf paths of the BFS tree of <= 8 / 12 steps (<= 20 / 40,
-    deepest half first) and, per key, the "first / last surviving action" path.  The graph values
-    (`jit(vmap_states(vmap_actions(step)))`, `jit(vmap(reset))`) are the reference; every element of T is
-    re-executed as `jit(step)` per call, as `jit(vmap(step))` with batch sizes 1, 2 and 7 over consecutive
-    slices of T, and a seed-rotated subset as plain un-jitted `env.step` (first call measured; <= 8 s / 60 s
-    per configuration, at least 2 calls; the slow-eager families get exactly 2 in the quick tier).  Every
-    path is rolled out with `lax.scan(step)` for the lengths {1, 2, 5, full} and every stacked output and the
-    final carry are compared with the graph nodes.  `reset`: jit per key, vmap with batches 1, 2, 4, eager
-    (>= 1 key).  All leaves of state and timestep (extras included) are compared: ints/bools exactly, floats
-    rtol 1e-5 / atol 1e-6, after `jnp.asarray` of Python-scalar leaves (DESIGN §2 canonical form).
+    {0,1,2,3} (all actions; max 300 / 1 500 states; default-size configurations with more than 64 actions over
+    64 evenly spaced ones); a monitor records its transitions (<= 50 / 150 actions per parent).  T = up to
+    200 / 600 recorded transitions, evenly strided over the BFS-ordered record, plus every transition of the
+    selected paths: root-to-leaf paths of the BFS tree of <= 8 / 12 steps (<= 20 / 40, deepest half first) and,
+    per key, the "first / last surviving action" paths.  The graph values (`jit(vmap_states(vmap_actions(step)))`,
+    `jit(vmap(reset))`) are the reference; every element of T is re-executed as `jit(step)` per call, as
+    `jit(vmap(step))` with batch sizes 1, 2 and 7 over consecutive slices of T, and a subset as plain un-jitted
+    `env.step`: first a transition out of a reset state and one of the deepest ones (of another key), then
+    seed-rotated elements of T while <= 8 s / 60 s have been spent (BinPack, PacMan, RobotWarehouse, RubiksCube,
+    MMST: exactly 2 steps and 1 reset in the quick tier).  Every path is rolled out with `lax.scan(step)` for the
+    lengths {1, 2, 5, full}; every stacked output and the final carry are compared with the graph nodes.
+    `reset`: jit per key, vmap with batches 1, 2, 4, eager (>= 1 key).  All leaves of state and timestep (extras
+    included) are compared: ints/bools exactly, floats rtol 1e-5 / atol 1e-6, after `jnp.asarray` of Python-scalar
+    leaves (DESIGN §2 canonical form).
 (2) call histories on ONE object over {reset(k0), reset(k1), step(s0,a0), step(s0,a1), step(s1,a0)}
     (s0 = reset(k0), a0 = first action keeping s0 alive, a1 = last other such action, s1 = step(s0,a0)): all
     5^L maximal sequences (L = 2 quick, 3 thorough: every history of length <= L is a prefix of one) are run
     eagerly, each on a newly constructed object, and every call must return what the same call returns
     under jit on a fresh instance.  After each maximal history reset and step are traced from scratch
-    (`make_jaxpr` of a new lambda = what a fresh `jax.jit` wrapper would trace): when the traced program
-    (jaxpr text and constant values) is identical to the one of a fresh instance the results are equal for all
-    inputs, otherwise the program is compiled and the five results are compared.  Where eager costs >= 0.3 s
-    per call (and always for BinPack, PacMan, RobotWarehouse, RubiksCube, MMST) the quick tier runs only the
-    first call eagerly (5 objects) and decides the 25 two-call histories by the traced programs after it;
-    the thorough tier runs all length-2 histories eagerly for them.
-(3) arguments intact: around every eager call the argument pytrees must keep their structure, the very
-    same leaf objects (a `state.x = ...` on the caller's dataclass replaces one) and equal values.
-    Instances: a twin constructed before and an instance constructed after the first one was driven must
-    return the graph's values for the five calls.
+    (`make_jaxpr` of a new lambda = what a fresh `jax.jit` wrapper would trace; "trace-under-jit-after-history"):
+    when the traced program (jaxpr text and constant values) is identical to the one of a fresh instance the
+    results are equal for all inputs, otherwise the program is compiled and the five results are compared.
+    Families whose eager step or reset costs >= 0.3 s (static table c02_core.SLOW_HISTORY from unloaded
+    measurements, so that the enumeration does not depend on machine load): the quick tier runs only the first
+    call eagerly (5 objects) and decides the 25 two-call histories by the programs traced after it; the thorough
+    tier runs all 25 length-2 histories eagerly (+ the traced programs after each).
+    A difference that also shows for the same eager call on a new object with an empty history is reported as
+    `<fn>:eager-vs-jit-differs`, not as history dependence.
+(3) arguments intact: around every eager call of (1) and (2) the argument pytrees must keep their structure, the
+    very same leaf objects (a `state.x = ...` on the caller's dataclass replaces one) and equal values.
+    Instances: a twin constructed before, and an instance constructed after, the first instance was driven must
+    return the graph's values for the five calls (quick tier: decided by identity of the traced program with the
+    driven instance's program when they are identical, else and always in the thorough tier by compiling).
 Auxiliary: `jax.make_jaxpr(env.step / env.reset).effects` must be empty.
+An `UnexpectedTracerError` anywhere (a tracer kept on `self`/a global by one trace, read by a later one) is the
+violation `<family>:python-state-leaks-tracer`; `lax.scan` refusing the step (carry type changes) is `scan-raises`.
+
+Signatures: <family>:step:{jit-vs-graph,eager-vs-jit}-differs, step:vmap{1,2,7}-differs, scan{1,2,5,full}-differs,
+scan-raises, reset:{jit-vs-graph,eager-vs-jit,vmap{1,2,4}}-differs, history-dependent-result,
+instance-dependent-result, argument-mutated, jaxpr-has-effects, python-state-leaks-tracer.
 
 Oracle decisions: (i) dtype is part of the comparison after `jnp.asarray`; a Python scalar leaf from eager
 reset and the array leaf from jit are the same value in canonical form.  (ii) `jax.disable_jit()` is out of
 scope.  (iii) identical traced programs are accepted as proof of equal results (no compile); differing
-programs are never reported by themselves, only differing results are.
+programs are never reported by themselves, only differing results are.  (iv) the history alphabet's three
+steps all belong to the episode of k0; Python-side state that only matters across episodes is exercised by the
+eager calls of (1), which run on one object over transitions of several keys.
+VERIF_C02_FAMILIES=a,b restricts the run to some families (development aid for mutation demos only).
 """
 from __future__ import annotations
 
